@@ -5168,8 +5168,6 @@ class PyCdlib:
 
             new_rr_name = self._check_rr_name(rr_name)
 
-            depth = len(utils.split_path(iso_path_bytes))
-
             if not self.rock_ridge and self.enhanced_vd is None:
                 _check_path_depth(iso_path_bytes)
             (name, parent) = self._iso_name_and_parent_from_path(iso_path_bytes)
@@ -5182,13 +5180,22 @@ class PyCdlib:
             # name has to be refused before any of that.
             parent.check_new_child(name, new_rr_name if self.rock_ridge else None)
 
+            # The depth that counts is the one in the ISO9660 hierarchy, where
+            # the descendants of a relocated directory are found below the
+            # relocation directory.
+            depth = 1
+            ancestor = parent
+            while ancestor.parent is not None:
+                depth += 1
+                ancestor = ancestor.parent
+
             relocated = False
             fake_dir_rec = None
             orig_parent = None
             iso9660_name = name
-            if self.rock_ridge and (depth % 8) == 0 and self.enhanced_vd is None:
-                # If the depth was a multiple of 8, then we are going to have to
-                # make a relocated entry for this record.
+            if self.rock_ridge and depth > 7 and self.enhanced_vd is None:
+                # If the directory would be deeper than ISO9660 allows, then we
+                # are going to have to make a relocated entry for this record.
 
                 num_bytes_to_add += self._find_or_create_rr_moved()
 
